@@ -1108,10 +1108,11 @@ class MoneyConverter:
         # create all exchange rates before updating the internal dict, so
         # that an invalid rate spec does not cause a partial update
         base_currency = self._base_currency
-        items = [((validity, term_currency),
-                  ExchangeRate(base_currency, unit_multiple, term_currency,
-                               term_amount))
+        rates = [ExchangeRate(base_currency, unit_multiple, term_currency,
+                              term_amount)
                  for term_currency, term_amount, unit_multiple in rate_specs]
+        # use the currency (not a given ISO code) as part of the key
+        items = [((validity, rate.term_currency), rate) for rate in rates]
         self._type_of_validity = type(validity)
         self._rate_dict.update(items)
 
